@@ -3,7 +3,7 @@ hash-table entry (a candidate distance) carries the id of the loading instructio
 AND-ed with a value loaded from the dist_mask field, or compared with such a value and the
 in-range edge is taken.  Using an unguarded candidate in a memory address (the match-compare
 load, the dist_table lookup) is a violation."""
-import re
+import re, os
 from common import AnalysisBroken
 import asmdb, kernels, provenance
 from asmdb import REG64, parse_mem, is_mem, VREG
@@ -336,6 +336,8 @@ def check(rep):
     for sym in SCALAR_KERNELS + VECTOR_KERNELS:
         info = res.get(sym)
         if info is None:
+            if os.environ.get('VERIF_SUBRUN') in ('asfeat4', 'asfeat6') and sym.endswith('_06'):
+                continue          # the AVX-512 kernels are not assembled at this assembler feature level
             raise AnalysisBroken('asm match finder %s not found' % sym)
         R.instance()
         u, f = info['unit'], info['func']
